@@ -21,7 +21,9 @@ iteration can precede that restore attempt except the documented ones
 C07.4 the current instance itself is removed only when it is beyond the cap
 or its lease renewal failed; a placed instance whose renewal succeeded leaves
 the iteration untouched.  C07.5 the per-allocation sort key puts running
-before pending (shared with C06.1).
+before pending (shared with C06.1).  C07.6 the inactive-server pre-pass
+collects instances only from servers that are down (expired retention) or
+frozen (unschedule flag) - never from an up server (shared with C08.1).
 Does NOT decide the relation between queue order and the before/after
 placements of a whole cycle (a property of the run).
 """
@@ -31,10 +33,15 @@ ASSUMPTIONS = [
 ]
 
 MIN_OBLIGATIONS = 10
-MIN_PER_RULE = {'C07.1': 2, 'C07.2': 3, 'C07.3': 3, 'C07.4': 2, 'C07.5': 1}
+MIN_PER_RULE = {'C07.1': 2, 'C07.2': 3, 'C07.3': 3, 'C07.4': 2, 'C07.5': 1,
+                'C07.6': 6}
 
 
 def check(ctx):
+    # C07.6: the pre-pass of a cycle takes nothing off a server that is up
+    # (same rule instances as C08.1)
+    from . import c08
+    c08._inactive(ctx, rule='C07.6')
     loop = PlacementLoop(ctx)
     func, graph, head, var = loop.func, loop.graph, loop.head, loop.var
     nz = loop.nz
@@ -345,6 +352,14 @@ MUTANTS = [
     ('pending-before-running', [(_S, """            return (-app.priority, 0 if app.server else 1,
 """, """            return (-app.priority, 1 if app.server else 0,
 """)], 'C07.5'),
+]
+
+MUTANTS += [
+    ('prepass-takes-from-up-server', [(_S, """            elif state == State.frozen:
+                _LOGGER.debug('Server state is frozen: %s', server.name)
+""", """            else:
+                _LOGGER.debug('Server state is frozen: %s', server.name)
+""")], 'C07.6'),
 ]
 
 REFACTORS = [
